@@ -83,3 +83,12 @@ Definition store_colval (tc : bool) (f : colform) (k k2 : kind) (raw : pyv) : re
 (* what a column of kind k2 can hold in its storage: numeric columns hold numbers (NumPy buffer) *)
 Definition raw_ok (k2 : kind) (raw : pyv) : bool :=
   match k2 with KMixed => true | _ => is_Number raw end.
+
+(* ---- dm.name = value / dm[name] = value / constructor keyword, value a column object of kind k2 ----
+   DataMatrix._set_col: the translated test k_setcol_by_reference decides between the deliberate alias (the
+   column object itself is entered under the new name: its storage is what is read back) and the copying exit
+   (length check, a fresh column of the value's type with type checking on, then [:] = value). *)
+Definition store_setcol (same_owner is_own_column same_len same_ids : bool) (k2 : kind) (raw : pyv) : res val :=
+  if k_setcol_by_reference same_owner is_own_column same_len same_ids then buffer_store k2 raw
+  else if negb same_len then Raise ValueError
+  else setslice_col true k2 k2 raw.
